@@ -8,6 +8,7 @@ package main
 // anchor stays unresolved and the rule fails closed as before.
 
 import (
+	"go/token"
 	"go/types"
 	"strings"
 	"sync"
@@ -29,27 +30,30 @@ func sigKey(sig *types.Signature) string {
 
 // signatures of the unexported anchors on the pinned tree: "rel|Type|name" → params/results
 var roleSigs = map[string]string{
-	"||newEvent":                    "(zerolog.LevelWriter,zerolog.Level)(*zerolog.Event)",
-	"||appendFieldList":             "([]byte,[]interface{},bool)([]byte)",
-	"||appendFields":                "([]byte,interface{},bool)([]byte)",
-	"||samplingDisabled":            "()(bool)",
-	"|Logger|should":                "(zerolog.Level)(bool)",
-	"|Logger|newEvent":              "(zerolog.Level,func(string))(*zerolog.Event)",
-	"|TriggerLevelWriter|trigger":   "()(error)",
-	"|BurstSampler|inc":             "()(uint32)",
-	"|ConsoleWriter|writeFields":    "(map[string]interface{},*bytes.Buffer)()",
-	"|ConsoleWriter|orderFields":    "([]string)()",
-	"diode|Writer|poll":             "()()",
+	"||newEvent":                               "(zerolog.LevelWriter,zerolog.Level)(*zerolog.Event)",
+	"||appendFieldList":                        "([]byte,[]interface{},bool)([]byte)",
+	"||appendFields":                           "([]byte,interface{},bool)([]byte)",
+	"||samplingDisabled":                       "()(bool)",
+	"|Logger|should":                           "(zerolog.Level)(bool)",
+	"|Logger|newEvent":                         "(zerolog.Level,func(string))(*zerolog.Event)",
+	"|TriggerLevelWriter|trigger":              "()(error)",
+	"|BurstSampler|inc":                        "()(uint32)",
+	"|ConsoleWriter|writeFields":               "(map[string]interface{},*bytes.Buffer)()",
+	"|ConsoleWriter|orderFields":               "([]string)()",
+	"diode|Writer|poll":                        "()()",
 	mutilRel + "|basicWriter|maybeWriteHeader": "()()",
-	diodesRel + "|Poller|isDone":    "()(bool)",
-	diodesRel + "|Waiter|isDone":    "()(bool)",
-	cborRel + "||readNBytes":        "(*bufio.Reader,int)([]byte)",
-	cborRel + "||readByte":          "(*bufio.Reader)(byte)",
-	cborRel + "||decodeStringComplex": "([]byte,string,uint)([]byte)",
-	cborRel + "||decodeString":      "(*bufio.Reader,bool)([]byte)",
-	cborRel + "||appendCborTypePrefix": "([]byte,byte,uint64)([]byte)",
-	"internal/json||appendStringComplex": "([]byte,string,int)([]byte)",
-	"internal/json||appendBytesComplex":  "([]byte,[]byte,int)([]byte)",
+	diodesRel + "|Poller|isDone":               "()(bool)",
+	diodesRel + "|Waiter|isDone":               "()(bool)",
+	cborRel + "||readNBytes":                   "(*bufio.Reader,int)([]byte)",
+	cborRel + "||readByte":                     "(*bufio.Reader)(byte)",
+	cborRel + "||decodeStringComplex":          "([]byte,string,uint)([]byte)",
+	cborRel + "||decodeString":                 "(*bufio.Reader,bool)([]byte)",
+	cborRel + "||appendCborTypePrefix":         "([]byte,byte,uint64)([]byte)",
+	cborRel + "||cbor2JsonOneObject":           "(*bufio.Reader,io.Writer)()",
+	cborRel + "||decodeTagData":                "(*bufio.Reader)([]byte)",
+	cborRel + "||decodeSimpleFloat":            "(*bufio.Reader)([]byte)",
+	"internal/json||appendStringComplex":       "([]byte,string,int)([]byte)",
+	"internal/json||appendBytesComplex":        "([]byte,[]byte,int)([]byte)",
 }
 
 var (
@@ -111,6 +115,25 @@ func (p *Prog) resolveFuncRole(rel, tname, name string) *ssa.Function {
 		}
 	}
 	if len(cands) != 1 {
+		// several functions share the signature: identify the role by where it is called from
+		if finder, ok := roleFinders[rel+"|"+tname+"|"+name]; ok {
+			roleMu.Lock()
+			busy := roleBusy[rel+"|"+tname+"|"+name]
+			roleBusy[rel+"|"+tname+"|"+name] = true
+			roleMu.Unlock()
+			if busy {
+				return nil
+			}
+			f := finder(p, cands)
+			roleMu.Lock()
+			roleBusy[rel+"|"+tname+"|"+name] = false
+			if f != nil {
+				funcCanon[f] = name
+				resolvedLog[rel+"."+tname+"."+name] = f.Name()
+			}
+			roleMu.Unlock()
+			return f
+		}
 		return nil
 	}
 	roleMu.Lock()
@@ -123,20 +146,20 @@ func (p *Prog) resolveFuncRole(rel, tname, name string) *ssa.Function {
 // field roles: struct → canonical name → type string (with package-name qualifier); resolved
 // when exactly one field of the struct has that type and no field has the canonical name.
 var fieldRoles = map[string]map[string]string{
-	"|Event":  {"buf": "[]byte", "w": "zerolog.LevelWriter", "level": "zerolog.Level", "done": "func(msg string)", "stack": "bool", "ch": "[]zerolog.Hook", "skipFrame": "int", "ctx": "context.Context"},
-	"|Logger": {"w": "zerolog.LevelWriter", "level": "zerolog.Level", "sampler": "zerolog.Sampler", "context": "[]byte", "hooks": "[]zerolog.Hook", "stack": "bool", "ctx": "context.Context"},
-	"|Context": {"l": "zerolog.Logger"},
-	"|Array":  {"buf": "[]byte"},
-	"|syncWriter":         {"mu": "sync.Mutex", "lw": "zerolog.LevelWriter"},
-	"|multiLevelWriter":   {"writers": "[]zerolog.LevelWriter"},
-	"|TriggerLevelWriter": {"buf": "*bytes.Buffer", "triggered": "bool", "mu": "sync.Mutex"},
-	"|BurstSampler":       {"resetAt": "int64"},
-	"|callerHook":         {"callerSkipFrameCount": "int"},
-	"diode|Writer":        {"w": "io.Writer", "d": "diode.diodeFetcher", "c": "context.CancelFunc", "done": "chan struct{}"},
-	diodesRel + "|Waiter": {"mu": "sync.Mutex", "c": "*sync.Cond", "ctx": "context.Context"},
-	diodesRel + "|Poller": {"interval": "time.Duration", "ctx": "context.Context"},
-	diodesRel + "|ManyToOne": {"buffer": "[]unsafe.Pointer", "alerter": "diodes.Alerter"},
-	diodesRel + "|bucket": {"seq": "uint64", "data": "diodes.GenericDataType"},
+	"|Event":                  {"buf": "[]byte", "w": "zerolog.LevelWriter", "level": "zerolog.Level", "done": "func(msg string)", "stack": "bool", "ch": "[]zerolog.Hook", "skipFrame": "int", "ctx": "context.Context"},
+	"|Logger":                 {"w": "zerolog.LevelWriter", "level": "zerolog.Level", "sampler": "zerolog.Sampler", "context": "[]byte", "hooks": "[]zerolog.Hook", "stack": "bool", "ctx": "context.Context"},
+	"|Context":                {"l": "zerolog.Logger"},
+	"|Array":                  {"buf": "[]byte"},
+	"|syncWriter":             {"mu": "sync.Mutex", "lw": "zerolog.LevelWriter"},
+	"|multiLevelWriter":       {"writers": "[]zerolog.LevelWriter"},
+	"|TriggerLevelWriter":     {"buf": "*bytes.Buffer", "triggered": "bool", "mu": "sync.Mutex"},
+	"|BurstSampler":           {"resetAt": "int64"},
+	"|callerHook":             {"callerSkipFrameCount": "int"},
+	"diode|Writer":            {"w": "io.Writer", "d": "diode.diodeFetcher", "c": "context.CancelFunc", "done": "chan struct{}"},
+	diodesRel + "|Waiter":     {"mu": "sync.Mutex", "c": "*sync.Cond", "ctx": "context.Context"},
+	diodesRel + "|Poller":     {"interval": "time.Duration", "ctx": "context.Context"},
+	diodesRel + "|ManyToOne":  {"buffer": "[]unsafe.Pointer", "alerter": "diodes.Alerter"},
+	diodesRel + "|bucket":     {"seq": "uint64", "data": "diodes.GenericDataType"},
 	mutilRel + "|basicWriter": {"wroteHeader": "bool", "tee": "io.Writer"},
 }
 
@@ -283,5 +306,131 @@ func (p *Prog) resolveFieldRoles() {
 				}
 			}
 		}
+	}
+}
+
+// globalRoles: package-level variables re-identified by their type when renamed.
+var globalRoles = map[string]func(t types.Type) bool{
+	// the "needs no escaping" table of the JSON encoder: the only [N]bool array of the package
+	"internal/json|noEscapeTable": func(t types.Type) bool {
+		a, ok := t.Underlying().(*types.Array)
+		if !ok {
+			return false
+		}
+		b, ok := a.Elem().Underlying().(*types.Basic)
+		return ok && b.Kind() == types.Bool
+	},
+}
+
+func (p *Prog) resolveGlobalRole(rel, name string) *ssa.Global {
+	pred, ok := globalRoles[rel+"|"+name]
+	if !ok {
+		return nil
+	}
+	pk := p.Pkg(rel)
+	if pk == nil {
+		return nil
+	}
+	var cands []*ssa.Global
+	for _, m := range pk.Members {
+		if g, ok := m.(*ssa.Global); ok && pred(derefType(g.Type())) {
+			cands = append(cands, g)
+		}
+	}
+	if len(cands) != 1 {
+		return nil
+	}
+	roleMu.Lock()
+	resolvedLog[rel+".."+name] = cands[0].Name()
+	roleMu.Unlock()
+	return cands[0]
+}
+
+var roleBusy = map[string]bool{}
+
+// calleeUnder: among cands, the one that f calls at a site that executes only when some value
+// equals the constant k (the arm of a dispatch on a CBOR major type).
+func calleeUnder(f *ssa.Function, cands []*ssa.Function, k int64) *ssa.Function {
+	in := func(g *ssa.Function) bool {
+		for _, c := range cands {
+			if c == g {
+				return true
+			}
+		}
+		return false
+	}
+	var found []*ssa.Function
+	eachInstr(f, func(b *ssa.BasicBlock, i int, x ssa.Instruction) {
+		c, ok := x.(*ssa.Call)
+		if !ok {
+			return
+		}
+		g := staticCallee(&c.Call)
+		if g == nil || !in(g) {
+			return
+		}
+		if hasCmp(necessaryCmps(f, c), func(op token.Token, a, bb ssa.Value) bool {
+			n, isN := constInt(bb)
+			return op == token.EQL && isN && n == k
+		}) {
+			found = append(found, g)
+		}
+	})
+	if len(found) == 1 {
+		return found[0]
+	}
+	return nil
+}
+
+// roleFinders: structural identification when the signature is shared by several functions.
+var roleFinders map[string]func(p *Prog, cands []*ssa.Function) *ssa.Function
+
+func init() {
+	roleFinders = map[string]func(p *Prog, cands []*ssa.Function) *ssa.Function{
+		// the item decoder: the (reader, writer) function the exported stream decoder calls per object
+		cborRel + "||cbor2JsonOneObject": func(p *Prog, cands []*ssa.Function) *ssa.Function {
+			pk := p.Pkg(cborRel)
+			if pk == nil {
+				return nil
+			}
+			many := pk.Func("Cbor2JsonManyObjects")
+			if many == nil {
+				return nil
+			}
+			var found []*ssa.Function
+			seen := map[*ssa.Function]bool{}
+			eachInstr(many, func(b *ssa.BasicBlock, i int, x ssa.Instruction) {
+				if c, ok := x.(*ssa.Call); ok {
+					if g := staticCallee(&c.Call); g != nil && !seen[g] {
+						for _, cd := range cands {
+							if cd == g {
+								seen[g] = true
+								found = append(found, g)
+							}
+						}
+					}
+				}
+			})
+			if len(found) == 1 {
+				return found[0]
+			}
+			return nil
+		},
+		// the tag decoder / the simple-and-float decoder: called by the item decoder in the arm of
+		// major type 6 (0xc0) / 7 (0xe0)
+		cborRel + "||decodeTagData": func(p *Prog, cands []*ssa.Function) *ssa.Function {
+			one := p.Func(cborRel, "cbor2JsonOneObject")
+			if one == nil {
+				return nil
+			}
+			return calleeUnder(one, cands, 6<<5)
+		},
+		cborRel + "||decodeSimpleFloat": func(p *Prog, cands []*ssa.Function) *ssa.Function {
+			one := p.Func(cborRel, "cbor2JsonOneObject")
+			if one == nil {
+				return nil
+			}
+			return calleeUnder(one, cands, 7<<5)
+		},
 	}
 }
